@@ -79,7 +79,7 @@ def ambient(run, fx):
 def panic_sites(run, fx):
     b = fx.bodies[F + "panic_sites_bad"]
     kinds = sorted(set((s.kind, s.what) for s in panics.sites(b, fx, include_overflow=False) if not panic_review.auto(s, fx)))
-    want = {("assert", "BoundsCheck"), ("unwrap", "Option::unwrap"), ("assert", "DivisionByZero"), ("panic", "panicking::panic_fmt")}
+    want = {("assert", "BoundsCheck"), ("unwrap", "Option::unwrap"), ("assert", "DivisionByZero"), ("panic", "panicking::panic")}
     run.selftest("panic-sites/enumerated", want <= set(kinds), True)
     b = fx.bodies[F + "panic_sites_ok"]
     left = [s for s in panics.sites(b, fx, include_overflow=False) if not panic_review.auto(s, fx)]
